@@ -114,6 +114,24 @@ Theorem C03_deadlock_free : forall (progs bods : list prog) (sched : list nat),
 Proof. exact deadlock_free. Qed.
 Print Assumptions C03_deadlock_free.
 
+(* well-formed client programs (every callback id constructed at most once and destroyed at most
+   once in the whole program text, thread programs and callback bodies) never run into the
+   model's discipline guards other than "the constructor has not returned yet": a registration
+   always finds a fresh id and a destruction is never a second destruction.  So for them the
+   theorems above speak about exactly the executions of the unguarded protocol. *)
+Theorem C03_wf_guards : forall (progs bods : list prog) (sched : list nat), wf progs bods ->
+  let s := fst (run step sched (init progs bods, [])) in
+  forall t oc k rest c,
+    (thr s t = FRun oc (IReg c :: k) :: rest -> cst (cbs s c) = CNew) /\
+    (thr s t = FRun oc (IDereg c :: k) :: rest -> dst (cbs s c) = DNone).
+Proof. exact wf_guards. Qed.
+Print Assumptions C03_wf_guards.
+
+(* well-formedness is decidable *)
+Theorem C03_wfb_wf : forall (progs bods : list prog), wfb progs bods = true -> wf progs bods.
+Proof. exact wfb_wf. Qed.
+Print Assumptions C03_wfb_wf.
+
 (* the whole inductive invariant holds in every reachable configuration *)
 Theorem C03_inv_reachable : forall (progs bods : list prog) (sched : list nat),
   InvX (run step sched (init progs bods, [])).
@@ -173,3 +191,9 @@ Example C03_example_inline :
            (0, EDeregBegin 1); (0, EDeregRet 1); (0, EEnd 0);
            (0, EDeregBegin 0); (0, EDeregRet 0)].
 Proof. vm_compute. repeat split; reflexivity. Qed.
+
+(* the programs the K1 tie runs are well-formed, e.g. the largest quick one *)
+Example C03_example_wf :
+  wf [[IReg 0; IReg 1; IReg 2]; [IWait 2; IReqStop; IDereg 2]; [IWait 2; IDereg 1]]
+     [[]; [IStopReq]; [IDereg 0]].
+Proof. apply wfb_wf. vm_compute. reflexivity. Qed.
